@@ -10,6 +10,23 @@ real basis of its input space plus random combinations (linearity), the
 non-linear ones (Kraus extraction, truncate_hs) on random inputs, and adds
 alternative-implementation agreement, round trips and cache-rebuild agreement.
 
+History / combination steps (hist_state, hist_povm, hist_gate, hist_mprocess, visit_veterans; the hooks judge every
+one of these calls against the defining formula for the operand as it is at the time of the call): every case ends by
+ (a) asking the objects it built AGAIN (other order: column- before row-major, sparse before dense, outcomes and POVM
+     elements descending, tuple before int index), and by re-judging the arrays it still HOLDS from the first pass
+     (a result must not change under the caller because of later calls);
+ (b) converting objects reached through copy() (non-default MProcess shape and Gate eps_proj_physical included),
+     copy().set_zero() (query -> public mutator -> query on the same object), generate_from_var, generate_origin_obj /
+     generate_zero_obj, +, scalar *, a pickle round trip, and one object of ANOTHER class on the same composite system;
+ (c) re-querying a VETERAN object per job that is kept alive over all cases (and the veteran of the previous job of
+     the shard: same shape, other basis), interleaved with the case's own objects of the same class and size, and
+     handing the caller's OWN argument arrays (one array object per job) to the conversion functions again with new
+     contents;
+ (d) giving options in the other order (constrained var form first, non-default eps / atol before the default).
+Driver-level verdicts of these steps use the ordinary tolerances and carry the step in their key (":second-call",
+":via-copy", ":after-set_zero", ":re-used-object", "formula:held-result"); operations that merely produce an object for
+a step (copy, set_zero, +, pickle ...) are not judged here (a failure is counted under history:step-unavailable).
+
 Reference conventions (independent of quara's formulas):
   X = sum_a x_a B_a                    V = [vec_row(B_0) ... ] (columns)
   E(B_b) = sum_a HS[a,b] B_a     =>    N = V HS V^-1
@@ -32,7 +49,12 @@ RULE = ("per configuration (type x shape S1,S3,S2,S23 x Hermitian orthonormal ba
         "HS matrices, Hermitian matrix units E_ii, E_ij+E_ji, i(E_ij-E_ji) for density/POVM/Choi inputs) and on random real "
         "combinations, complex Hermitian non-symmetric operands and physical objects (complex Kraus of every rank 1..d^2); "
         "Kraus extraction and truncate_hs on random inputs; a case is distinct by (family, shape, basis, basis-element index "
-        "or rounded random input) and non-trivial when its operand is a basis element or a non-symmetric / complex operand")
+        "or rounded random input) and non-trivial when its operand is a basis element or a non-symmetric / complex operand; "
+        "every case ends with history steps judged by the same oracles (not counted as distinct cases): the case's objects are "
+        "asked again in another order and the results still held from the first pass are re-judged, conversions are repeated on "
+        "copy(), copy().set_zero(), generate_from_var / origin / zero objects, sums, scalar multiples and pickle round trips, on a "
+        "veteran object kept alive over all cases of a job (and the previous job's), on an object of another class on the same "
+        "composite system and on caller-owned argument arrays re-used with new contents")
 TOL_PASS = 1e-11
 TOL_FAIL = 1e-8
 
@@ -216,6 +238,7 @@ class Mon:
         self.ctx = ctx
         self.hs = HookSet(ctx)
         self.cls = "na"
+        self.step = ""  # name of the history step in progress (suffix of the violation keys of everything judged meanwhile)
         self._bv = {}
 
     # -- basis views (cached by object identity, strong reference kept)
@@ -253,8 +276,8 @@ class Mon:
             err = float("nan")
         else:
             err = max(0.0, err - slack) / scale
-        return ctx.num(oracle, err, TOL_PASS, TOL_FAIL, key=f"{label}:{what}:{self.cls}",
-                       info={"cls": self.cls, "scale": scale, "got": g, "want": w})
+        return ctx.num(oracle, err, TOL_PASS, TOL_FAIL, key=f"{label}:{what}:{self.cls}{self.step}",
+                       info={"cls": self.cls, "step": self.step, "scale": scale, "got": g, "want": w})
 
     def cmp_list(self, label, got, wants, what="formula", slack=0.0):
         ctx = self.ctx
@@ -509,7 +532,7 @@ def install(ctx):
             return
         if lam >= -atol / 10 and hv <= 1e-14 * scale:
             if n == 0:
-                ctx.truth(f"{label}:formula", False, key=f"{label}:empty-for-CP-map:{M.cls}", info={"lambda_min": lam, "atol": atol})
+                ctx.truth(f"{label}:formula", False, key=f"{label}:empty-for-CP-map:{M.cls}{M.step}", info={"lambda_min": lam, "atol": atol})
                 return
         elif lam <= -10 * atol:
             if n == 0:
@@ -523,7 +546,8 @@ def install(ctx):
             ctx.truth(f"{label}:formula", False, key=f"{label}:formula:shape", info={"shapes": [list(k.shape) for k in ks]})
             return
         Nk = nat_of_kraus(ks, d)
-        M.cmp(label, Nk, N)
+        # eigen-components with |lambda| <= atol may be dropped ("ignores eigenvalues close zero"): at most d^2 of them
+        M.cmp(label, Nk, N, slack=d * d * atol if atol > 1e-12 else 0.0)
         if tp_defect(N, d) <= 1e-13:
             S = sum(ref.dag(k) @ k for k in ks)
             M.cmp(label, S, np.eye(d), what="sum-KdagK=I")
@@ -735,7 +759,7 @@ def install(ctx):
         dr, di = _maxabs(diff.real), _maxabs(diff.imag)
         ok = bool(np.all(np.isfinite(out))) if np.all(np.isfinite(x)) else True
         ctx.truth(f"{label}:within-eps", ok and dr <= eps and di <= eps,
-                  key=f"{label}:output-differs-by-more-than-eps:{'real' if dr > eps else 'imag'}:{M.cls}",
+                  key=f"{label}:output-differs-by-more-than-eps:{'real' if dr > eps else 'imag'}:{M.cls}{M.step}",
                   info={"eps": eps, "max_real_diff": dr, "max_imag_diff": di, "required": bool(is_zero_imaginary_part_required)})
 
     def x_trunc(label, exc, hs, eps_truncate_imaginary_part, is_zero_imaginary_part_required):
@@ -877,6 +901,10 @@ class Driver:
         self.bv = BV(gen.basis_of(c_sys))
         self.d = c_sys.dim
         self.others = None
+        self.prev = None   # driver of the previous job of this shard (same shape, other basis): its veteran is interleaved
+        self.vets = {}     # veteran objects kept alive and re-queried in every case of the job
+        self.bufs = {}     # caller-owned argument arrays handed to the conversion functions again with new contents
+        self.held = []     # results held by the caller, re-judged against the defining formula at the end of the case
 
     # -- plumbing
     def name_of(self, fn):
@@ -890,7 +918,8 @@ class Driver:
         if not ok:
             # an exception from a conversion defined on its input: a failed evaluation of that conversion's oracle
             nm = self.name_of(fn)
-            self.ctx.truth(f"{nm}:formula", False, key=f"{nm}:{self.ctx.exc_key(val)}", info={"cls": self.M.cls, "msg": str(val)[:200]})
+            self.ctx.truth(f"{nm}:formula", False, key=f"{nm}:{self.ctx.exc_key(val)}{self.M.step}",
+                           info={"cls": self.M.cls, "step": self.M.step, "msg": str(val)[:200]})
             return None
         return val
 
@@ -944,6 +973,50 @@ class Driver:
         for nm in which:
             getattr(c, nm)()
 
+    # -- history plumbing
+    def prov(self, what, fn, *a, **kw):
+        """an operation that only PRODUCES an object for a history step (copy, set_zero, generate_from_var, +, pickle ...):
+        whether it works is another property's business; when it raises the step is skipped and counted"""
+        ok, val = self.ctx.attempt(fn, *a, **kw)
+        if not ok:
+            self.ctx.count(f"history:step-unavailable:{what}:{type(val).__name__}")
+            return None
+        self.ctx.count(f"history:{what}")
+        return val if val is not None else True
+
+    def buf(self, name, value):
+        """the caller's own array object, the same one for the whole job, filled with new contents before every call"""
+        v = np.asarray(value)
+        key = (name, v.shape, v.dtype.str)
+        b = self.bufs.get(key)
+        if b is None:
+            b = self.bufs[key] = np.zeros(v.shape, dtype=v.dtype)
+        b[...] = v
+        return b
+
+    def hold(self, label, result, want, is_list=False):
+        """keep the array(s) a conversion returned (no copy) together with what the defining formula gives for the
+        operand it was called with (reference arithmetic, computed now)"""
+        if result is None:
+            return
+        want = [np.array(w) for w in want] if is_list else np.array(want)
+        self.held.append((label, self.M.cls, result, want, is_list))
+
+    def check_held(self):
+        """later calls (on this or on other objects) must not have changed a result the caller still holds"""
+        M = self.M
+        keep = M.cls
+        M.step = ""
+        for label, cls, result, want, is_list in self.held:
+            M.cls = cls
+            if is_list:
+                M.cmp_list(label, result, want, what="formula:held-result")
+            else:
+                M.cmp(label, result, want, what="formula:held-result")
+        M.cls = keep
+        M.step = ""
+        self.held = []
+
     # -- inputs
     def herm_unit(self, n, k):
         return herm_units(n)[k]
@@ -969,12 +1042,15 @@ def run_state(ctx, M, D, k, dense, rng):
         rho = ref.rand_density(d, rng, int(rng.integers(1, d + 1)))
         inputs.append(("physical", np.ascontiguousarray(bv.coeffs(rho).real), rho))
         ctx.nontrivial("state", D.shape, D.kind, "random", xr)
+    made = []
     for cls, x, H in inputs:
         M.cls = cls
         s = D.call(Q.State, c_sys, x, is_physicality_required=False)
         if s is None:
             continue
         A = D.call(s.to_density_matrix)
+        if A is not None:
+            made.append((cls, s, x.copy(), np.array(ref.dense(A))))
         if k % 5 == 3:
             D.drop_caches(["delete_basis_T_sparse", "delete_basisconjugate_sparse"])
         Bm = D.call(s.to_density_matrix_with_sparsity)
@@ -985,6 +1061,10 @@ def run_state(ctx, M, D, k, dense, rng):
         D.num("agree:State.to_density_matrix:dense-vs-sparse", A, Bm)
         D.num("agree:State.to_density_matrix:method-vs-function", Bm, Cm)
         D.num("agree:state.to_density_matrix:from_vec-vs-from_var", Cm, Dm)
+        want = bv.op(x)
+        D.hold("State.to_density_matrix", A, want)
+        D.hold("State.to_density_matrix_with_sparsity", Bm, want)
+        D.hold("state.to_density_matrix_from_vec", Cm, want)
         if Cm is not None:
             v2 = D.call(sm.to_vec_from_density_matrix_with_sparsity, c_sys, Cm)
             D.num("roundtrip:state:vec->density->vec", v2, x)
@@ -995,6 +1075,7 @@ def run_state(ctx, M, D, k, dense, rng):
                 D.num("roundtrip:convert_vec:there-and-back", back, x)
         # matrix input
         v = D.call(sm.to_vec_from_density_matrix_with_sparsity, c_sys, H)
+        D.hold("state.to_vec_from_density_matrix_with_sparsity", v, bv.coeffs(H).real)
         if cls != "unit" and k % 3 == 0:
             D.call(sm.to_vec_from_density_matrix_with_sparsity, c_sys, H, 1e-9)
         var = D.call(sm.to_var_from_density_matrix, c_sys, H, False)
@@ -1029,6 +1110,7 @@ def run_state(ctx, M, D, k, dense, rng):
         gx, gy, gz = g(X), g(Y), g(a * X + b * Y)
         if gx is not None and gy is not None:
             D.num("linear:state.to_vec_from_density_matrix_with_sparsity", gz, a * gx + b * gy)
+    hist_state(ctx, M, D, k, dense, ctx.rng(1), made)
 
 
 def run_povm(ctx, M, D, k, dense, rng):
@@ -1055,6 +1137,7 @@ def run_povm(ctx, M, D, k, dense, rng):
             rk += 1
         ms = ref.rand_povm(d, m2, rng, rk)
         inputs.append(("physical", [np.ascontiguousarray(bv.coeffs(x).real) for x in ms], ms))
+    made = []
     for cls, vecs, Ms in inputs:
         M.cls = cls
         m = len(vecs)
@@ -1062,12 +1145,18 @@ def run_povm(ctx, M, D, k, dense, rng):
         if p is None:
             continue
         A = D.call(p.matrices)
+        if A is not None and len(A) == m:
+            made.append((cls, p, [v.copy() for v in vecs], [np.array(ref.dense(a)) for a in A]))
         if k % 5 == 3:
             D.drop_caches(["delete_basis_T_sparse", "delete_basisconjugate_sparse"])
         Bm = D.call(p.matrices_with_sparsity)
         Cm = D.call(pm.to_matrices_from_vecs, c_sys, vecs)
         D.num("agree:Povm.matrices:dense-vs-sparse", A, Bm)
         D.num("agree:Povm.matrices:method-vs-function", Bm, Cm)
+        want = [bv.op(v) for v in vecs]
+        D.hold("Povm.matrices", A, want, True)
+        D.hold("Povm.matrices_with_sparsity", Bm, want, True)
+        D.hold("povm.to_matrices_from_vecs", Cm, want, True)
         for i in range(m):
             a1 = D.call(p.matrix, i)
             a2 = D.call(p.matrix, (i,))
@@ -1092,6 +1181,7 @@ def run_povm(ctx, M, D, k, dense, rng):
                     D.num("roundtrip:convert_vec:there-and-back", back, vecs)
         # matrix input
         vs = D.call(pm.to_vecs_from_matrices_with_sparsity, c_sys, Ms)
+        D.hold("povm.to_vecs_from_matrices_with_sparsity", vs, [bv.coeffs(x).real for x in Ms], True)
         v0 = D.call(pm.to_vec_from_matrix_with_sparsity, c_sys, Ms[-1])
         if cls != "unit" and k % 3 == 0:
             D.call(pm.to_vec_from_matrix_with_sparsity, c_sys, Ms[0], 1e-9)
@@ -1119,10 +1209,493 @@ def run_povm(ctx, M, D, k, dense, rng):
         gx, gy, gz = g(X), g(Y), g(a * X + b * Y)
         if gx is not None and gy is not None:
             D.num("linear:povm.to_vec_from_matrix_with_sparsity", gz, a * gx + b * gy)
+    hist_povm(ctx, M, D, k, dense, ctx.rng(1), made)
+
+
+# ------------------------------------------------- history / combination steps
+#
+# The oracles of this check live in the hooks: every call of a conversion is judged against the defining formula
+# for the operand AS IT IS at the time of the call.  The steps below therefore only have to create histories: the same
+# object asked again (other order, other arguments in between), after its public mutator set_zero(), objects reached
+# through copy() / generate_from_var() / generate_origin_obj() / arithmetic / a pickle round trip, veteran objects
+# kept alive over all cases of a job (and of the previous job of the shard: same shape, other basis), objects of
+# another class on the same composite system, the caller's own argument array handed in again with new contents, and
+# results the caller still holds while later calls are made.  Driver-level verdicts added here use the existing
+# tolerances and carry a suffix naming the step (":second-call", ":via-copy", ":after-set_zero", ":re-used-object",
+# "formula:held-result").
+
+
+def _det(n, a=1.7, b=0.9):
+    """fixed (not random) generic real data for veteran objects, so that a replayed case builds the same veteran"""
+    t = np.arange(1, n + 1, dtype=np.float64)
+    return np.cos(a * t) + 0.3 * np.sin(b * t * t)
+
+
+VET_QUERIES = {
+    "state": [("to_density_matrix", ()), ("to_density_matrix_with_sparsity", ())],
+    "povm": [("matrices", ()), ("matrix_with_sparsity", (2,)), ("matrices_with_sparsity", ()), ("matrix", (1,))],
+    "gate": [("to_choi_matrix_with_sparsity", ()), ("convert_to_comp_basis", ("column_major",)), ("to_choi_matrix_with_dict", ()),
+             ("to_process_matrix", ()), ("to_choi_matrix", ()), ("convert_to_comp_basis", ())],
+    "mprocess": [("to_choi_matrix_with_sparsity", ((1, 0),)), ("to_choi_matrix_with_dict", (3,)), ("to_process_matrix", ((0, 1),)),
+                 ("to_choi_matrix", (2,)), ("to_choi_matrix_with_sparsity", (1,)), ("convert_to_comp_basis", ())],
+}
+
+
+def veteran(D, fam):
+    v = D.vets.get(fam)
+    if v is not None:
+        return v
+    Q, c_sys, d = D.Q, D.c_sys, D.d
+    d2 = d * d
+    if fam == "state":
+        obj = D.prov("veteran", Q.State, c_sys, _det(d2), is_physicality_required=False)
+    elif fam == "povm":
+        obj = D.prov("veteran", Q.Povm, c_sys, [_det(d2, 1.7 + 0.4 * i) for i in range(3)], is_physicality_required=False)
+    elif fam == "gate":
+        obj = D.prov("veteran", Q.Gate, c_sys, _det(d2 * d2).reshape(d2, d2), is_physicality_required=False)
+    else:
+        obj = D.prov("veteran", Q.MProcess, c_sys, [_det(d2 * d2, 1.3 + 0.5 * i).reshape(d2, d2) for i in range(4)],
+                     shape=(2, 2), is_physicality_required=False)
+    if obj is None:
+        return None
+    v = D.vets[fam] = {"obj": obj, "first": {}}
+    return v
+
+
+def visit_veterans(D, fam, k, n_queries):
+    """re-use: the veteran of this job (and the one of the previous job of the shard) is asked again in every case,
+    interleaved with the case's own objects of the same class and size; each answer is judged by the hooks and must
+    agree with the answer the same object gave the first time"""
+    M = D.M
+    keep = M.cls
+    M.cls = "veteran"
+    M.step = ":re-used-object"
+    qs = VET_QUERIES[fam]
+    for drv in (D, D.prev):
+        if drv is None:
+            continue
+        v = veteran(drv, fam)
+        if v is None:
+            continue
+        for j in range(n_queries):
+            qi = (k + j) % len(qs)
+            nm, args = qs[qi]
+            r = D.call(getattr(v["obj"], nm), *args)
+            if r is None:
+                continue
+            first = v["first"].get(qi)
+            if first is None:
+                v["first"][qi] = [np.array(ref.dense(x)) for x in r] if isinstance(r, list) else np.array(ref.dense(r))
+            else:
+                D.num(f"agree:{type(v['obj']).__name__}.{nm}:re-used-object", r, first)
+    M.cls = keep
+    M.step = ""
+
+
+def hist_state(ctx, M, D, k, dense, rng, made):
+    Q, c_sys, d, bv = D.Q, D.c_sys, D.d, D.bv
+    sm = Q.state_mod
+    d2 = d * d
+    basis = c_sys.basis()
+    visit_veterans(D, "state", k, 2)
+    zero = np.zeros((d, d))
+    for cls, s, x0, A0 in made:
+        M.cls = cls
+        nm, ob = D.pick_others(rng, False)[0]
+        # provenance: the copy denotes the same operator; then the copy's public mutator, then the copy again
+        M.step = ":via-copy"
+        sc = D.prov("copy", s.copy)
+        if sc is not None:
+            D.num("agree:State.to_density_matrix_with_sparsity:via-copy", D.call(sc.to_density_matrix_with_sparsity), A0)
+            D.num("agree:State.to_density_matrix:via-copy", D.call(sc.to_density_matrix), A0)
+            D.call(sc.convert_basis, ob)
+            if D.prov("set_zero", sc.set_zero) is not None:
+                M.step = ":after-set_zero"
+                D.num("agree:State.to_density_matrix:after-set_zero", D.call(sc.to_density_matrix), zero)
+                D.num("agree:State.to_density_matrix_with_sparsity:after-set_zero", D.call(sc.to_density_matrix_with_sparsity), zero)
+                y = D.call(sc.convert_basis, ob)
+                if y is not None:
+                    D.num("agree:State.convert_basis:after-set_zero", y, np.zeros(d2))
+        # the original again, other order, after everything that happened to its copy and to the other objects
+        M.step = ":second-call"
+        y = D.call(s.convert_basis, ob)
+        if y is not None:
+            D.num("roundtrip:convert_vec:there-and-back:second-call", D.call(Q.mb.convert_vec, y, ob, basis), x0)
+        D.num("agree:State.to_density_matrix_with_sparsity:second-call", D.call(s.to_density_matrix_with_sparsity), A0)
+        D.num("agree:State.to_density_matrix:second-call", D.call(s.to_density_matrix), A0)
+    if made:
+        cls, s, x0, A0 = made[-1]
+        M.cls = cls
+        # objects returned by previous library calls
+        M.step = ":derived-object"
+        der = []
+        der.append(D.prov("generate_from_var", s.generate_from_var, rng.standard_normal(d2 - 1 if s.on_para_eq_constraint else d2)))
+        der.append(D.prov("generate_origin_obj", s.generate_origin_obj))
+        sc = D.prov("copy", s.copy)
+        if sc is not None:
+            der.append(D.prov("add", lambda: s + sc))
+            der.append(D.prov("rmul", lambda: 0.5 * s))
+        if dense:
+            import pickle
+
+            der.append(D.prov("pickle", lambda: pickle.loads(pickle.dumps(s))))
+        for o in der:
+            if o is None:
+                continue
+            D.call(o.to_density_matrix_with_sparsity)
+            D.call(o.to_density_matrix)
+        # another class on the same composite system
+        M.step = ":other-class-on-same-system"
+        p = D.prov("other-class", Q.Povm, c_sys, [x0.copy(), rng.standard_normal(d2)], is_physicality_required=False)
+        if p is not None:
+            D.call(p.matrices_with_sparsity)
+            D.call(p.matrix, 1)
+        # the caller's own arrays, handed in again with new contents (the same array objects for the whole job)
+        M.step = ":caller-array-reused"
+        vb = D.buf("vec", x0)
+        D.call(sm.to_density_matrix_from_vec, c_sys, vb)
+        nm, ob = D.pick_others(rng, False)[-1]
+        D.call(Q.mb.convert_vec, vb, basis, ob)
+        D.call(Q.mb.calc_mat_from_coefficient_basis, vb, basis)
+        if bv.identity_first:  # options in the other order: constrained form first
+            D.call(sm.to_density_matrix_from_var, c_sys, D.buf("var", x0[1:]))
+        D.call(sm.to_density_matrix_from_var, c_sys, vb, on_para_eq_constraint=False)
+        mb_ = D.buf("mat", A0)
+        D.call(sm.to_vec_from_density_matrix_with_sparsity, c_sys, mb_, 1e-9)
+        D.call(sm.to_vec_from_density_matrix_with_sparsity, c_sys, mb_)
+        D.call(sm.to_var_from_density_matrix, c_sys, mb_, False)
+        D.call(Q.mb.calc_matrix_expansion_coefficient, mb_, basis)
+        D.call(Q.mb.calc_hermitian_matrix_expansion_coefficient_hermitian_basis, mb_, basis)
+    D.check_held()
+
+
+def hist_povm(ctx, M, D, k, dense, rng, made):
+    Q, c_sys, d, bv = D.Q, D.c_sys, D.d, D.bv
+    pm = Q.povm_mod
+    d2 = d * d
+    basis = c_sys.basis()
+    visit_veterans(D, "povm", k, 2)
+    zero = np.zeros((d, d))
+    for cls, p, vecs0, A0 in made:
+        M.cls = cls
+        m = len(vecs0)
+        nm, ob = D.pick_others(rng, False)[0]
+        M.step = ":via-copy"
+        pc = D.prov("copy", p.copy)
+        if pc is not None:
+            D.num("agree:Povm.matrices_with_sparsity:via-copy", D.call(pc.matrices_with_sparsity), A0)
+            D.num("agree:Povm.matrix:via-copy", D.call(pc.matrix, m - 1), A0[m - 1])
+            D.num("agree:Povm.matrices:via-copy", D.call(pc.matrices), A0)
+            if D.prov("set_zero", pc.set_zero) is not None:
+                M.step = ":after-set_zero"
+                D.num("agree:Povm.matrices:after-set_zero", D.call(pc.matrices), [zero] * m)
+                D.num("agree:Povm.matrices_with_sparsity:after-set_zero", D.call(pc.matrices_with_sparsity), [zero] * m)
+                D.num("agree:Povm.matrix:after-set_zero", D.call(pc.matrix, 0), zero)
+                D.num("agree:Povm.matrix_with_sparsity:after-set_zero", D.call(pc.matrix_with_sparsity, (m - 1,)), zero)
+                D.call(pc.convert_basis, ob)
+        # the original again: single elements in descending order, sparse before dense
+        M.step = ":second-call"
+        for i in reversed(range(m)):
+            D.num("agree:Povm.matrix_with_sparsity:second-call", D.call(p.matrix_with_sparsity, (i,)), A0[i])
+            D.num("agree:Povm.matrix:second-call", D.call(p.matrix, i), A0[i])
+        D.num("agree:Povm.matrices_with_sparsity:second-call", D.call(p.matrices_with_sparsity), A0)
+        D.num("agree:Povm.matrices:second-call", D.call(p.matrices), A0)
+        y = D.call(p.convert_basis, ob)
+        if y is not None and len(y) == m:
+            back = [D.call(Q.mb.convert_vec, yi, ob, basis) for yi in y]
+            if all(b is not None for b in back):
+                D.num("roundtrip:convert_vec:there-and-back:second-call", back, vecs0)
+    if made:
+        cls, p, vecs0, A0 = made[-1]
+        M.cls = cls
+        m = len(vecs0)
+        M.step = ":derived-object"
+        der = []
+        nvar = (m - 1) * d2 if p.on_para_eq_constraint else m * d2
+        der.append(D.prov("generate_from_var", p.generate_from_var, rng.standard_normal(nvar)))
+        der.append(D.prov("generate_origin_obj", p.generate_origin_obj))
+        pc = D.prov("copy", p.copy)
+        if pc is not None:
+            der.append(D.prov("add", lambda: p + pc))
+            der.append(D.prov("rmul", lambda: 0.5 * p))
+        if dense:
+            import pickle
+
+            der.append(D.prov("pickle", lambda: pickle.loads(pickle.dumps(p))))
+        for o in der:
+            if o is None:
+                continue
+            D.call(o.matrices_with_sparsity)
+            D.call(o.matrix, len(o.vecs) - 1)
+            D.call(o.matrices)
+        M.step = ":other-class-on-same-system"
+        s = D.prov("other-class", Q.State, c_sys, vecs0[0].copy(), is_physicality_required=False)
+        if s is not None:
+            D.call(s.to_density_matrix_with_sparsity)
+            D.call(s.to_density_matrix)
+        # caller-owned arrays with new contents (always three rows, so the array objects stay the same for the job)
+        M.step = ":caller-array-reused"
+        rows = [vecs0[i % m] for i in range(3)]
+        vb = D.buf("vecs", np.array(rows))
+        D.call(pm.to_matrices_from_vecs, c_sys, list(vb))
+        D.call(pm.to_matrices_from_var, c_sys, D.buf("var", np.hstack(rows)), False)
+        if bv.identity_first:
+            D.call(pm.to_matrices_from_var, c_sys, D.buf("var-c", np.hstack(rows[:-1])))
+        mb_ = D.buf("mats", np.array([ref.dense(A0[i % m]) for i in range(3)]))
+        D.call(pm.to_vecs_from_matrices_with_sparsity, c_sys, list(mb_))
+        D.call(pm.to_vec_from_matrix_with_sparsity, c_sys, mb_[1], 1e-9)
+        D.call(pm.to_vec_from_matrix_with_sparsity, c_sys, mb_[2])
+        D.call(pm.to_var_from_matrices, c_sys, list(mb_), False)
+    D.check_held()
+
+
+
+def hist_gate(ctx, M, D, k, dense, rng, made, chois):
+    """made: (cls, gate, private copy of its HS matrix, Kraus set or None, first Choi / process matrix results);
+    the full history runs in every case for one qubit and in every second case otherwise (the light one always)"""
+    Q, c_sys, d, bv = D.Q, D.c_sys, D.d, D.bv
+    gm = Q.gate_mod
+    d2 = d * d
+    basis = c_sys.basis()
+    full = d == 2 or k % 2 == 1
+    visit_veterans(D, "gate", k, 2 if full else 1)
+    zero = np.zeros((d2, d2))
+    for cls, g, h0, ks, C0, X0 in (made if full else made[-1:]):
+        M.cls = cls
+        if full:
+            nm, ob = D.pick_others(rng, False)[0]
+            M.step = ":via-copy"
+            gc = D.prov("copy", g.copy)
+            if gc is not None:
+                D.num("agree:Gate.to_choi_matrix_with_sparsity:via-copy", D.call(gc.to_choi_matrix_with_sparsity), C0)
+                D.num("agree:Gate.to_choi_matrix_with_dict:via-copy", D.call(gc.to_choi_matrix_with_dict), C0)
+                D.num("agree:Gate.to_process_matrix:via-copy", D.call(gc.to_process_matrix), X0)
+                D.call(gc.convert_to_comp_basis, "column_major")
+                if ks is not None:  # the non-default eps_proj_physical of every second physical gate travels with the copy
+                    K = D.call(gc.to_kraus_matrices)
+                    if K is not None and len(K) > 0:
+                        D.num("roundtrip:hs->kraus->hs:via-copy", D.call(gm.to_hs_from_kraus_matrices, c_sys, K), h0)
+                if D.prov("set_zero", gc.set_zero) is not None:
+                    M.step = ":after-set_zero"
+                    D.num("agree:Gate.to_choi_matrix_with_sparsity:after-set_zero", D.call(gc.to_choi_matrix_with_sparsity), zero)
+                    D.num("agree:Gate.to_choi_matrix_with_dict:after-set_zero", D.call(gc.to_choi_matrix_with_dict), zero)
+                    D.num("agree:Gate.to_choi_matrix:after-set_zero", D.call(gc.to_choi_matrix), zero)
+                    D.num("agree:Gate.to_process_matrix:after-set_zero", D.call(gc.to_process_matrix), zero)
+                    D.num("agree:Gate.convert_to_comp_basis:after-set_zero", D.call(gc.convert_to_comp_basis), zero)
+                    D.num("agree:Gate.convert_basis:after-set_zero", D.call(gc.convert_basis, ob), zero)
+            # the original again: column-major before row-major, sparse before dense
+            M.step = ":second-call"
+            r3 = D.call(g.convert_to_comp_basis, mode="column_major")
+            r2 = D.call(g.convert_to_comp_basis)
+            if r2 is not None and r3 is not None and np.shape(r2) == (d2, d2) == np.shape(r3):
+                P = np.arange(d2).reshape(d, d).T.reshape(-1)
+                D.num("agree:Gate.convert_to_comp_basis:row-vs-column-major:second-call", np.asarray(r3), np.asarray(r2)[np.ix_(P, P)])
+            y = D.call(g.convert_basis, ob)
+            if y is not None:
+                D.num("roundtrip:convert_hs:there-and-back:second-call", D.call(gm.convert_hs, y, ob, basis), h0)
+            D.num("agree:Gate.to_process_matrix:second-call", D.call(g.to_process_matrix), X0)
+            D.num("agree:Gate.to_choi_matrix_with_dict:second-call", D.call(g.to_choi_matrix_with_dict), C0)
+            if ks is not None:
+                K = D.call(g.to_kraus_matrices)
+                if K is not None and len(K) > 0:
+                    D.num("roundtrip:hs->kraus->hs:second-call", D.call(gm.to_hs_from_kraus_matrices, c_sys, K), h0)
+        M.step = ":second-call"
+        D.num("agree:Gate.to_choi_matrix_with_sparsity:second-call", D.call(g.to_choi_matrix_with_sparsity), C0)
+        if full or cls == "unit":
+            D.num("agree:Gate.to_choi_matrix:second-call", D.call(g.to_choi_matrix), C0)
+    if made:
+        cls, g, h0, ks, C0, X0 = made[-1]
+        M.cls = cls
+        if full:
+            M.step = ":derived-object"
+            der = []
+            der.append(D.prov("generate_from_var", g.generate_from_var, rng.standard_normal(d2 * d2 - d2 if g.on_para_eq_constraint else d2 * d2)))
+            der.append(D.prov("generate_origin_obj", g.generate_origin_obj))
+            gc = D.prov("copy", g.copy)
+            if gc is not None:
+                der.append(D.prov("add", lambda: g + gc))
+                der.append(D.prov("rmul", lambda: 0.5 * g))
+            if dense and d <= 3:
+                import pickle
+
+                der.append(D.prov("pickle", lambda: pickle.loads(pickle.dumps(g))))
+            for o in der:
+                if o is None:
+                    continue
+                D.call(o.to_choi_matrix_with_sparsity)
+                D.call(o.to_choi_matrix_with_dict)
+                D.call(o.convert_to_comp_basis, "column_major")
+            if bv.identity_first:  # another class on the same composite system (MProcess needs an identity-first basis)
+                M.step = ":other-class-on-same-system"
+                mp = D.prov("other-class", Q.MProcess, c_sys, [h0.copy(), rng.standard_normal((d2, d2))], is_physicality_required=False)
+                if mp is not None:
+                    D.call(mp.to_choi_matrix_with_sparsity, 1)
+                    D.call(mp.to_choi_matrix_with_dict, (0,))
+        # caller-owned arrays with new contents
+        M.step = ":caller-array-reused"
+        hb = D.buf("hs", h0)
+        D.call(gm.to_choi_from_hs_with_sparsity, c_sys, hb)
+        D.call(gm.to_choi_from_hs_with_dict, c_sys, hb)
+        if full:
+            D.call(gm.to_choi_from_hs, c_sys, hb)
+            D.call(gm.to_process_matrix_from_hs, c_sys, hb)
+            nm, ob = D.pick_others(rng, False)[-1]
+            D.call(gm.convert_hs, hb, basis, ob)
+            if bv.identity_first:
+                D.call(gm.to_choi_from_var, c_sys, D.buf("var-c", h0[1:].flatten()))
+            D.call(gm.to_choi_from_var, c_sys, D.buf("var", h0.flatten()), False)
+            if ks is not None:
+                D.call(gm.to_kraus_matrices_from_hs, c_sys, hb, 1e-10)
+                D.call(gm.to_kraus_matrices_from_hs, c_sys, hb)
+                D.call(gm.to_hs_from_kraus_matrices, c_sys, list(D.buf("kraus", np.array([ks[i % len(ks)] for i in range(2)]))))
+    if chois:
+        cls, C = chois[-1]
+        M.cls = cls
+        M.step = ":caller-array-reused"
+        cb = D.buf("choi", np.asarray(ref.dense(C), dtype=np.complex128))
+        D.call(gm.to_hs_from_choi_with_sparsity, c_sys, cb, 1e-9)
+        D.call(gm.to_hs_from_choi_with_dict, c_sys, cb)
+        if full:
+            D.call(gm.to_hs_from_choi_with_sparsity, c_sys, cb)
+            D.call(gm.to_hs_from_choi, c_sys, cb)
+            D.call(gm.to_var_from_choi, c_sys, cb, False)
+    D.check_held()
+
+
+def hist_mprocess(ctx, M, D, k, dense, rng, made):
+    """made: (cls, mprocess, private copies of its HS matrices, shape, CP flag, outcomes asked in the normal pass)"""
+    Q, c_sys, d, bv = D.Q, D.c_sys, D.d, D.bv
+    gm = Q.gate_mod
+    d2 = d * d
+    basis = c_sys.basis()
+    full = d == 2 or k % 2 == 1
+    visit_veterans(D, "mprocess", k, 2 if full else 1)
+    zero = np.zeros((d2, d2))
+
+    def indices(o, shape):
+        return [tuple(int(t) for t in np.unravel_index(o, shape)) if shape is not None else (o,), o]
+
+    for cls, mp, hss0, shape, cp, outs in (made if full else made[-1:]):
+        M.cls = cls
+        m = len(hss0)
+        want = {o: choi_of_nat(bv.nat(hss0[o]), d) for o in outs}  # reference arithmetic
+        if full:
+            M.step = ":via-copy"
+            mc = D.prov("copy", mp.copy)
+            if mc is not None:
+                D.prov("set_mode_sampling", mc.set_mode_sampling, True, 7)  # a public setter that has nothing to do with conversions
+                for o in outs[-2:]:
+                    for ix in indices(o, shape):  # the non-default shape travels with the copy: tuple indices stay valid
+                        D.num("agree:MProcess.to_choi_matrix_with_sparsity:via-copy", D.call(mc.to_choi_matrix_with_sparsity, ix), want[o])
+                        D.num("agree:MProcess.to_choi_matrix_with_dict:via-copy", D.call(mc.to_choi_matrix_with_dict, ix), want[o])
+                    D.call(mc.to_process_matrix, indices(o, shape)[0])
+                    if cp:
+                        K = D.call(mc.to_kraus_matrices, indices(o, shape)[0])
+                        if K is not None and len(K) > 0:
+                            D.num("roundtrip:MProcess:hs->kraus->hs:via-copy", D.call(gm.to_hs_from_kraus_matrices, c_sys, K), hss0[o])
+                if D.prov("set_zero", mc.set_zero) is not None:
+                    M.step = ":after-set_zero"
+                    for o in outs[-2:]:
+                        ix = indices(o, shape)[0]
+                        D.num("agree:MProcess.to_choi_matrix_with_sparsity:after-set_zero", D.call(mc.to_choi_matrix_with_sparsity, ix), zero)
+                        D.num("agree:MProcess.to_choi_matrix_with_dict:after-set_zero", D.call(mc.to_choi_matrix_with_dict, ix), zero)
+                        D.num("agree:MProcess.to_choi_matrix:after-set_zero", D.call(mc.to_choi_matrix, o), zero)
+                        D.num("agree:MProcess.to_process_matrix:after-set_zero", D.call(mc.to_process_matrix, ix), zero)
+                    D.num("agree:MProcess.convert_to_comp_basis:after-set_zero", D.call(mc.convert_to_comp_basis), [zero] * m)
+        # the original again: outcomes in descending order, tuple before int, sparse before dense
+        M.step = ":second-call"
+        for o in reversed(outs if full else outs[-1:]):
+            for ix in indices(o, shape):
+                D.num("agree:MProcess.to_choi_matrix_with_sparsity:second-call", D.call(mp.to_choi_matrix_with_sparsity, ix), want[o])
+                D.num("agree:MProcess.to_choi_matrix_with_dict:second-call", D.call(mp.to_choi_matrix_with_dict, ix), want[o])
+            if full:
+                D.num("agree:MProcess.to_choi_matrix:second-call", D.call(mp.to_choi_matrix, o), want[o])
+                D.call(mp.to_process_matrix, o)
+                if cp:
+                    K = D.call(mp.to_kraus_matrices, o)
+                    if K is not None and len(K) > 0:
+                        D.num("roundtrip:MProcess:hs->kraus->hs:second-call", D.call(gm.to_hs_from_kraus_matrices, c_sys, K), hss0[o])
+        if full:
+            D.call(mp.convert_to_comp_basis, mode="column_major")
+            D.call(mp.convert_to_comp_basis)
+            nm, ob = D.pick_others(rng, False)[0]
+            y = D.call(mp.convert_basis, ob)
+            if y is not None and len(y) == m:
+                back = [D.call(gm.convert_hs, yi, ob, basis) for yi in y]
+                if all(b is not None for b in back):
+                    D.num("roundtrip:convert_hs:there-and-back:second-call", back, hss0)
+    if made and full:
+        cls, mp, hss0, shape, cp, outs = made[-1]
+        M.cls = cls
+        m = len(hss0)
+        M.step = ":derived-object"
+        der = []
+        nvar = m * d2 * d2 - d2 if mp.on_para_eq_constraint else m * d2 * d2
+        der.append(D.prov("generate_from_var", mp.generate_from_var, rng.standard_normal(nvar)))
+        der.append(D.prov("generate_origin_obj", mp.generate_origin_obj))
+        der.append(D.prov("generate_zero_obj", mp.generate_zero_obj))
+        for o in der:  # these keep the (non-default) shape of the object they were made from
+            if o is None:
+                continue
+            for ix in indices(m - 1, shape):
+                D.call(o.to_choi_matrix_with_sparsity, ix)
+                D.call(o.to_choi_matrix_with_dict, ix)
+        der = []
+        mc = D.prov("copy", mp.copy)
+        if mc is not None:
+            der.append(D.prov("add", lambda: mp + mc))
+            der.append(D.prov("rmul", lambda: 0.5 * mp))
+        if dense and d <= 3:
+            import pickle
+
+            der.append(D.prov("pickle", lambda: pickle.loads(pickle.dumps(mp))))
+        for o in der:
+            if o is None:
+                continue
+            D.call(o.to_choi_matrix_with_sparsity, m - 1)
+            D.call(o.to_choi_matrix_with_dict, 0)
+        M.step = ":other-class-on-same-system"
+        g = D.prov("other-class", Q.Gate, c_sys, hss0[-1].copy(), is_physicality_required=False)
+        if g is not None:
+            D.call(g.to_choi_matrix_with_sparsity)
+            D.call(g.to_choi_matrix_with_dict)
+            D.call(g.to_process_matrix)
+    D.check_held()
 
 
 CHOI_CACHE_DROPS = ["delete_dict_from_hs_to_choi", "delete_dict_from_choi_to_hs", "delete_basisconjugate_basis_sparse",
                     "delete_basis_basisconjugate_T_sparse"]
+
+
+def N_of_ks(ks, d):
+    return nat_of_kraus(ks, d)
+
+
+def cp_within_tolerance(bv, N, d, rng, tol):
+    """real HS matrix of N - t * (A . A^dagger) with t found by bisection such that the smallest Choi eigenvalue is
+    -u * tol, u in [0.01, 0.08] (None if the bisection does not get there)"""
+    A = rng.standard_normal((d, d)) + 1j * rng.standard_normal((d, d))
+    NA = nat_of_kraus([A / np.linalg.norm(A)], d)
+    target = -float(rng.uniform(0.01, 0.08)) * tol
+    lam = lambda t: ref.lambda_min(choi_of_nat(N - t * NA, d))  # noqa: E731
+    lo, hi = 0.0, 1e-12
+    while lam(hi) > target and hi < 1e3:
+        hi *= 4.0
+    if lam(hi) > target:
+        return None
+    for _ in range(200):
+        mid = 0.5 * (lo + hi)
+        if lam(mid) > target:
+            lo = mid
+        else:
+            hi = mid
+    got = lam(hi)
+    if not (-0.09 * tol <= got <= -0.005 * tol):
+        return None
+    h = bv.hs_of_nat(N - hi * NA)
+    if np.max(np.abs(h.imag)) > 1e-13 * max(1.0, np.max(np.abs(h.real))):
+        return None
+    return np.ascontiguousarray(h.real)
 
 
 def cp_kraus(d, rng, k):
@@ -1164,6 +1737,7 @@ def run_gate(ctx, M, D, k, dense, rng):
         choi_inputs.append(("physical", choi_of_nat(N, d)))
         ctx.nontrivial("gate", D.shape, D.kind, "kraus", kkind, r, hp)
     kkind_tp = False
+    made = []
     for cls, h, ks in hs_inputs:
         M.cls = cls
         if cls == "physical":
@@ -1194,6 +1768,14 @@ def run_gate(ctx, M, D, k, dense, rng):
         x1 = D.call(gm.to_process_matrix_from_hs, c_sys, h)
         x2 = D.call(g.to_process_matrix)
         D.num("agree:Gate.to_process_matrix:method-vs-function", x2, x1)
+        if c1 is not None and x1 is not None:
+            made.append((cls, g, h.copy(), ks, np.array(ref.dense(c1)), np.array(ref.dense(x1))))
+        Nh = bv.nat(h)
+        for lab, res in (("gate.to_choi_from_hs", c1), ("gate.to_choi_from_hs_with_dict", c2), ("gate.to_choi_from_hs_with_sparsity", c3),
+                         ("Gate.to_choi_matrix", m1), ("Gate.to_choi_matrix_with_dict", m2), ("Gate.to_choi_matrix_with_sparsity", m3)):
+            D.hold(lab, res, choi_of_nat(Nh, d))
+        D.hold("gate.to_process_matrix_from_hs", x1, chi_of_nat(Nh, d))
+        D.hold("Gate.to_process_matrix", x2, chi_of_nat(Nh, d))
         if cls == "physical":
             for nm, mat in (("choi", c1), ("choi_with_dict", c2), ("choi_with_sparsity", c3), ("process_matrix", x1)):
                 if mat is None or np.shape(mat) != (d2, d2):
@@ -1232,6 +1814,18 @@ def run_gate(ctx, M, D, k, dense, rng):
                 if K is not None and len(K) > 0:
                     D.num("roundtrip:hs->kraus->hs", D.call(gm.to_hs_from_kraus_matrices, c_sys, K), h)
             D.num("roundtrip:kraus->hs", D.call(gm.to_hs_from_kraus_matrices, c_sys, ks), h)
+            # a map that is CP only WITHIN a non-default tolerance: smallest Choi eigenvalue in [-0.08, -0.01] x atol
+            # (inside the accept zone of the Kraus oracle); both the function and the object form get that tolerance
+            if k % 3 == 0:
+                tol = float(rng.choice([1e-10, 1e-8, 1e-6]))
+                hq = cp_within_tolerance(bv, N_of_ks(ks, d), d, rng, tol)
+                if hq is not None:
+                    M.cls = "cp-within-atol"
+                    D.call(gm.to_kraus_matrices_from_hs, c_sys, hq, tol)
+                    gq = D.call(Q.Gate, c_sys, hq, is_physicality_required=False, eps_proj_physical=tol)
+                    if gq is not None:
+                        D.call(gq.to_kraus_matrices)
+                    M.cls = cls
             # generic complex (non-TP) Kraus list
             raw = [rng.standard_normal((d, d)) + 1j * rng.standard_normal((d, d)) for _ in range(int(rng.integers(1, 4)))]
             D.call(gm.to_hs_from_kraus_matrices, c_sys, raw)
@@ -1245,6 +1839,9 @@ def run_gate(ctx, M, D, k, dense, rng):
         h3 = D.call(gm.to_hs_from_choi_with_sparsity, c_sys, C)
         D.num("agree:to_hs_from_choi:dense-vs-dict", h1, h2)
         D.num("agree:to_hs_from_choi:dense-vs-sparse", h1, h3)
+        wh = bv.hs_of_nat(nat_of_choi(C, d)).real
+        for lab, res in (("gate.to_hs_from_choi", h1), ("gate.to_hs_from_choi_with_dict", h2), ("gate.to_hs_from_choi_with_sparsity", h3)):
+            D.hold(lab, res, wh)
         if cls != "unit" and k % 3 == 0:
             D.call(gm.to_hs_from_choi_with_dict, c_sys, C, 1e-9)
             D.call(gm.to_hs_from_choi_with_sparsity, c_sys, C, eps_truncate_imaginary_part=1e-9)
@@ -1278,6 +1875,7 @@ def run_gate(ctx, M, D, k, dense, rng):
             fx, fy, fz = D.call(fn, c_sys, X), D.call(fn, c_sys, Y), D.call(fn, c_sys, a * X + b * Y)
             if fx is not None and fy is not None:
                 D.num(f"linear:gate.{fn.__name__}", fz, a * np.asarray(fx) + b * np.asarray(fy))
+    hist_gate(ctx, M, D, k, dense, ctx.rng(1), made, choi_inputs)
 
 
 def run_mprocess(ctx, M, D, k, dense, rng):
@@ -1304,6 +1902,7 @@ def run_mprocess(ctx, M, D, k, dense, rng):
         m = int(rng.integers(2, 5))
         hss = [rng.standard_normal((d2, d2)) for _ in range(m)]
         inputs.append(("random", hss, (2, 2) if m == 4 else None, False))
+    made = []
     for cls, hss, shape, cp in inputs:
         M.cls = cls
         m = len(hss)
@@ -1313,6 +1912,7 @@ def run_mprocess(ctx, M, D, k, dense, rng):
         outs = list(range(m))
         if cls == "unit" and d > 3:
             outs = [k % m]
+        made.append((cls, mp, [h.copy() for h in hss], shape, cp, outs))
         for o in outs:
             idx = [o]
             if shape is not None:
@@ -1325,6 +1925,11 @@ def run_mprocess(ctx, M, D, k, dense, rng):
                 c3 = D.call(mp.to_choi_matrix_with_sparsity, ix)
                 D.num("agree:MProcess.to_choi_matrix:dense-vs-dict", c1, c2)
                 D.num("agree:MProcess.to_choi_matrix:dense-vs-sparse", c1, c3)
+                if o == outs[-1]:
+                    wc = choi_of_nat(bv.nat(hss[o]), d)
+                    D.hold("MProcess.to_choi_matrix", c1, wc)
+                    D.hold("MProcess.to_choi_matrix_with_dict", c2, wc)
+                    D.hold("MProcess.to_choi_matrix_with_sparsity", c3, wc)
                 D.call(mp.to_process_matrix, ix)
                 if cp or cls == "random":
                     K = D.call(mp.to_kraus_matrices, ix)
@@ -1340,6 +1945,10 @@ def run_mprocess(ctx, M, D, k, dense, rng):
         r2 = D.call(mp.convert_to_comp_basis, "row_major")
         D.call(mp.convert_to_comp_basis, mode="column_major")
         D.num("agree:MProcess.convert_to_comp_basis:default-is-row_major", r1, r2)
+    hist_mprocess(ctx, M, D, k, dense, ctx.rng(1), made)
+
+
+_UTIL_BUFS = {}
 
 
 def run_util(ctx, M, rng, i):
@@ -1378,6 +1987,18 @@ def run_util(ctx, M, rng, i):
         pass  # judged by the post-condition (output differs by more than eps in the imaginary part)
     if not ok and not isinstance(val, ValueError):
         ctx.violation("matrix_util.truncate_hs:" + ctx.exc_key(val), {"cls": M.cls})
+    # history: the caller's own array object (one per shape and dtype for the whole shard) again with new contents, and the
+    # same operand with the other spelling of the arguments; judged by the same post-conditions
+    bkey = (x.shape, x.dtype.str)
+    b = _UTIL_BUFS.get(bkey)
+    if b is None:
+        b = _UTIL_BUFS[bkey] = np.zeros(x.shape, dtype=x.dtype)
+    b[...] = x
+    M.step = ":caller-array-reused"
+    ok, val = ctx.attempt(mutil.truncate_hs, b, eps_truncate_imaginary_part=eps, is_zero_imaginary_part_required=required)
+    if not ok and not isinstance(val, ValueError):
+        ctx.violation("matrix_util.truncate_hs:" + ctx.exc_key(val) + M.step, {"cls": M.cls})
+    M.step = ""
     # computational bases (definition) for a few dimensions
     M.cls = "na"
     dd = int(rng.integers(1, 8))
@@ -1432,6 +2053,7 @@ def run_shard(ctx):
                 run_util(ctx, M, ctx.rng(), i)
         else:
             offset = 0
+            prev_D = None
             for job in p["jobs"]:
                 job.setdefault("stride", 1)
                 shape, kind = job["shape"], job["kind"]
@@ -1439,6 +2061,10 @@ def run_shard(ctx):
                 names = [1, 0] if shape.endswith("p") else None
                 c_sys = gen.make_csys(dims, names, kind=kind)
                 D = Driver(ctx, M, c_sys, shape, kind)
+                if prev_D is not None and prev_D.d == D.d:
+                    prev_D.prev = None
+                    D.prev = prev_D
+                prev_D = D
                 if not D.bv.oh:
                     ctx.mark_inconclusive(f"workload basis {kind} is not orthonormal Hermitian")
                     return
